@@ -173,6 +173,18 @@ def mon_c03(cfg, steps):
                 out.append({"step": s.idx, "what": "SubmitBatch of a batch of %d burns %s" % (b["total"], [(x.get("amount"), x.get("denom")) for x in burns])})
             if s.st["L"] != max(0, s.pre["L"] - b["total"]):
                 out.append({"step": s.idx, "what": "SubmitBatch: LST total %d -> %d for a batch of %d" % (s.pre["L"], s.st["L"], b["total"])})
+        elif k == "recover":
+            # a refunded LST delivery may only be re-sent to the recipient it was recorded for ("and to nobody else")
+            removed = [s.pre["pkts"][q] for q in sorted(s.pre["pkts"]) if q not in s.st["pkts"] and s.pre["pkts"][q]["denom"] == lst]
+            xs = [m for m in s.msgs if m["facet"] == "msg:transfer" and m.get("denom") == lst]
+            if removed or xs:
+                tot = sum(p["amount"] for p in removed)
+                to = xs[0].get("receiver") if xs else None
+                forced_sent = t[7] != "-" and any(p["status"] == "sent" for p in removed)
+                if len(xs) != 1 or xs[0].get("amount") != tot or any(p["receiver"] != to for p in removed):
+                    out.append({"step": s.idx, "what": "LST-RESEND: recover re-sent %s LST to %s; the refunded LST deliveries it removed are %r" % ([m.get("amount") for m in xs], to, [(p["seq"], p["amount"], p["receiver"], p["status"]) for p in removed])})
+                elif any(p["status"] == "sent" for p in removed) and not forced_sent:
+                    out.append({"step": s.idx, "what": "LST-RESEND: a permissionless recovery re-sent LST deliveries still in flight: %r" % [p["seq"] for p in removed if p["status"] == "sent"]})
         else:
             if s.st["L"] != s.pre["L"] and k != "resume":
                 out.append({"step": s.idx, "what": "%s changed the LST total" % k})
